@@ -206,6 +206,21 @@ Theorem C15_rule5_dedicated_variant_instr_twice : forall order_tp e msgs v,
 Proof. exact rule_dedicated_variant_instr_twice. Qed.
 Print Assumptions C15_rule5_dedicated_variant_instr_twice.
 
+(* rule 9, the enum half: a tuple variant sent to a struct-form variant (`#[type_hint(as {})]`) with a payload field that has no
+   instruction for the conversion - any variant, any payload field, any trait instruction and kind *)
+Theorem C15_rule9_tuple_variant_to_named_without_names : forall order_tp e msgs v f ta k h,
+    validate_msgs order_tp (DEnum e) = Ok msgs ->
+    In v (e_variants e) -> v_named v = false -> In f (v_fields v) ->
+    In ta (iter_for_kind (e_attrs e) k (ta_fallible ta)) -> tc_qret (ta_core ta) = None ->
+    m_hint_for (v_attrs v) (tc_ty (ta_core ta)) = Some h -> th_hint h = HStruct ->
+    m_ghost_for (f_attrs f) (tc_ty (ta_core ta)) k = None -> has_parent_attr (f_attrs f) (tc_ty (ta_core ta)) = false ->
+    applicable_field_attr (f_attrs f) k false (tc_ty (ta_core ta)) = None ->
+    In ("Member " ^^ member_str (f_member f) ^^ " of a variant " ^^ v_ident v ^^ " should have member trait instruction with field name" ^^
+        (if is_from k then " or an action" else "") ^^
+        ", that corresponds to #[" ^^ fallible_kind_str k (ta_fallible ta) ^^ "(" ^^ tp_str (tc_ty (ta_core ta)) ^^ "...)] trait instruction")%string msgs.
+Proof. exact rule_tuple_variant_to_named_without_names. Qed.
+Print Assumptions C15_rule9_tuple_variant_to_named_without_names.
+
 (* ---- rule 6: every misplaced / misnamed / unsupported instruction the parser recorded is reported - at type level, on any field
    of a struct, on any variant of an enum, whatever else is wrong with the input ---- *)
 Theorem C15_rule6_type_level : forall order_tp d msgs e,
